@@ -1027,6 +1027,13 @@ Error JitAllocator::release(void* rx) noexcept {
 
   // The first bit representing the allocated area and its size.
   uint32_t area_index = uint32_t(offset >> pool->granularity_log2);
+
+  // Reject pointers that don't point to a live allocation (already released or never returned by alloc()).
+  bool is_used = Support::bit_vector_get_bit(block->_used_bit_vector, area_index);
+  if (ASMJIT_UNLIKELY(!is_used)) {
+    return make_error(Error::kInvalidState);
+  }
+
   uint32_t area_end = uint32_t(Support::bit_vector_index_of(block->_stop_bit_vector, area_index, true)) + 1;
   uint32_t area_size = area_end - area_index;
 
